@@ -334,6 +334,13 @@ func (lr *liveRun) oracle(id string, in c06in, a *lib.TLAsset, sm *m.MPD, multi 
 			return
 		}
 	}
+	// --- publishTime in $Number$ mode: the instant the newest period began
+	if in.Mode == "number" {
+		pt, err := mm.PublishTime.ConvertToSeconds()
+		if err != nil || pt != float64(in.StartS+k1*P) {
+			lr.fail(id, "publishTime", fmt.Sprintf("publishTime %s, but the last period P%d starts %d s after availabilityStartTime %d", mm.PublishTime, k1, k1*P, in.StartS), in)
+		}
+	}
 	// --- per adaptation set
 	for j, sas := range sm.Periods[0].AdaptationSets {
 		sst := sas.SegmentTemplate
